@@ -57,7 +57,7 @@ func (c c10cfg) String() string {
 }
 
 // target builds the included/embedded template (and its base, if it extends one).
-func c10target(ts map[string]*gen.Template, name string, target int) {
+func c10target(ts map[string]*gen.Template, name string, target int, callHost bool) {
 	sets := func() []gen.Node {
 		switch target {
 		case 1:
@@ -87,6 +87,13 @@ func c10target(ts map[string]*gen.Template, name string, target int) {
 		body = append(body, c10probe(name+".top")...)
 		body = append(body, sets()...)
 		body = append(body, blk("ba", name+".ba"), tx("/"), blk("bb", name+".bb"), tx(")"))
+		if callHost {
+			// the last thing the target does: a macro of the host, reached through the alias the host passed on,
+			// assigns to x, y and z while it runs for the target. Whatever that does to the target's variables (a
+			// macro writing to its caller's variables is not claimed either way, so the target does not look),
+			// the host's variables stay what they are
+			body = append(body, tx("(hm:"), pr(&gen.EMethod{X: nm("hm"), Name: "hm1"}), tx(")"))
+		}
 		ts[name] = tpl(name, body...)
 	}
 }
@@ -130,7 +137,10 @@ func c10construct(c c10cfg, tplName string, over int, tag string) gen.Node {
 
 func (p *c10) buildCfg(c c10cfg) *Program {
 	ts := map[string]*gen.Template{}
-	c10target(ts, "tgt", c.target)
+	// the host's import alias reaches the target when the host has one (not in sites 2 and 3) and the construct
+	// passes the host's variables on (no 'only')
+	callHost := c.site != 2 && c.site != 3 && (c.mode == 0 || c.mode == 1 || c.mode == 4 || c.mode == 6)
+	c10target(ts, "tgt", c.target, callHost)
 	var site []gen.Node
 	site = append(site, c10construct(c, "tgt", c.over, "1"))
 	if c.twice == 1 {
@@ -145,7 +155,7 @@ func (p *c10) buildCfg(c c10cfg) *Program {
 	pre := []gen.Node{&gen.NSet{Name: "x", X: str("hx")}, &gen.NSet{Name: "y", X: str("hy")}}
 	if c.site != 2 && c.site != 3 {
 		// the host has an import alias in scope: it is a variable like the others (passed on, or not under only)
-		ts["hmac"] = tpl("hmac", &gen.NMacro{Name: "hm1", Body: []gen.Node{tx("HM")}})
+		ts["hmac"] = tpl("hmac", &gen.NMacro{Name: "hm1", Body: []gen.Node{tx("HM"), &gen.NSet{Name: "x", X: str("hm-x")}, &gen.NSet{Name: "y", X: str("hm-y")}, &gen.NSet{Name: "z", X: str("hm-z")}}})
 		pre = append(pre, &gen.NImport{Tpl: str("hmac"), Alias: "hm"})
 	}
 	var body []gen.Node
@@ -235,7 +245,7 @@ func (p *c10) build(i int) (*Program, string, bool) {
 	prog := p.buildCfg(c)
 	// the target's ba block gets a nested construct pointing at a second target
 	c2 := c10cfg{kind: r.Intn(2), mode: r.Intn(7), target: r.Intn(3), over: r.Intn(4)}
-	c10target(prog.Templates, "tgt2", c2.target)
+	c10target(prog.Templates, "tgt2", c2.target, false)
 	inner := []gen.Node{tx("N("), c10construct(c2, "tgt2", c2.over, "n"), tx(")")}
 	inner = append(inner, c10probe("tgt.afternested")...)
 	t := prog.Templates["tgt"]
@@ -247,7 +257,7 @@ func (p *c10) build(i int) (*Program, string, bool) {
 	if c2.kind == 1 && r.Intn(2) == 0 {
 		// third level inside the nested embed's override
 		c3 := c10cfg{kind: 0, mode: r.Intn(5)}
-		c10target(prog.Templates, "tgt3", 1)
+		c10target(prog.Templates, "tgt3", 1, false)
 		for _, n := range inner {
 			if e, ok := n.(*gen.NEmbed); ok && len(e.Blocks) > 0 {
 				e.Blocks[0].Body = append(e.Blocks[0].Body, c10construct(c3, "tgt3", 0, "d"))
